@@ -413,6 +413,7 @@ func c16Run(in *bufio.Scanner, w *bufio.Writer) {
 		}
 		if f[0] == "case" {
 			st.endCase()
+			st.threads.NextEpoch()
 			if st.stopRig != nil {
 				_ = os.RemoveAll(st.stopRig.Root)
 				if st.stopCopy != "" {
@@ -519,7 +520,10 @@ func c16Run(in *bufio.Scanner, w *bufio.Writer) {
 			go func() {
 				st.threads.Register(t.name)
 				defer st.threads.Unregister()
-				st.done <- c16Done{th: t.name, result: run()}
+				r := run()
+				if st.threads.Current() != "" { // not a leftover of an earlier case
+					st.done <- c16Done{th: t.name, result: r}
+				}
 			}()
 			if f[0] == "spawnw" {
 				fmt.Fprintln(w, st.awaitFor(t, HxScale(1500*time.Millisecond)))
